@@ -335,6 +335,31 @@ example : splitWs "  a1b\n.b2c.\t abc3 ".toList [] = ["a1b".toList, ".b2c.".toLi
   decide
 example : exceptionLines " a-b \r\n\n\tbc-c".toList = ["a-b".toList, "bc-c".toList] := by decide
 
+/-! ## Very large pattern sets -/
+
+/-- The specification may be evaluated on the patterns whose letters occur in the word only
+(what the driver does for pattern sets with tens of thousands of patterns): the others never
+match, nothing is lost. -/
+theorem liang_restrict (ps es : List (List Char)) (lw : List Char) :
+    specIndices (relevant ps lw) es lw = specIndices ps es lw := by
+  unfold specIndices
+  cases findException es lw with
+  | some e => rfl
+  | none =>
+    simp only
+    congr 1
+    unfold liangScores
+    apply List.map_congr_left
+    intro i _
+    by_cases hi : i = 0
+    · simp [hi]
+    · simp only [hi, if_false]
+      have hmap : (relevant ps lw).map parsePat
+          = (ps.map parsePat).filter (fun P => isInfix P.letters lw) := by
+        simp [relevant, List.filter_map, Function.comp_def]
+      rw [hmap]
+      exact liangAt_filter _ _ lw i (fun P _ hq o => matchesAt_false_of_not_infix P lw o hq)
+
 /-! ## Histories: one hyphenator through loads, inserts and queries -/
 
 /-- The answer to a query is a function of the hyphenator, and queries leave the hyphenator
